@@ -343,11 +343,13 @@ def run(tier):
         from checks import c13_run, scen
         scen.install_json_hooks(stubs)
         part2 = 0
-        for n in ((2, 3) if tier == "quick" else (2, 3, 4)):
-            for variant in (0, 1, 2, 3):
-                for fmt in ("df", "dict", "json"):
+        combos = [(n, variant, fmt, 1.0) for n in ((2, 3) if tier == "quick" else (2, 3, 4)) for variant in (0, 1, 2, 3) for fmt in ("df", "dict", "json")]
+        # fractional recorded times, incl. a dt with three decimals
+        combos += [(2, variant, fmt, dt_) for dt_ in (0.5, 0.125) for variant in (0, 3) for fmt in ("df", "dict", "json")]
+        for (n, variant, fmt, dt_) in combos:
+                if True:
                     part2 += 1
-                    r = c13_run.check(n, variant, fmt, _G["timeout"], spec_cell)
+                    r = c13_run.check(n, variant, fmt, _G["timeout"], spec_cell, dt=dt_)
                     if r is None:
                         continue
                     what, mdl = r
@@ -356,7 +358,7 @@ def run(tier):
                     else:
                         env = {k: float(v) for k, v in (mdl or {}).items() if isinstance(v, (Fraction, int, float)) and not isinstance(v, bool)}
                         kind = "missing" if "missing" in what else ("empty-not-zero" if "empty" in what else ("count" if "count" in what else ("raised" if "raised" in what else "aggregate")))
-                        rep.candidate("run_scenarios:%s:%s" % (fmt, kind), {"kind": "run_scenarios", "n": n, "variant": variant, "fmt": fmt, "env": env}, what)
+                        rep.candidate("run_scenarios:%s:%s" % (fmt, kind), {"kind": "run_scenarios", "n": n, "variant": variant, "fmt": fmt, "env": env, "dt": dt_}, what)
         rep.canary("mean-divides-by-count-minus-one", canary_mean_stale())
         rep.canary("min-keeps-first-value", canary_min_is_first())
     finally:
